@@ -507,7 +507,7 @@ pub fn check_case(tape: &[u16], rc: &mut RCase) -> Result<(), Failure> {
     let src = print_plain(&prog);
     let rendered = || json!({"mutation": mname, "source": src});
     rc.label(&format!("mutation:{}", mname));
-    let (out, ast) = front::eval(&src);
+    let (out, ast) = front::eval_opts(&src, true);
     let key = hash64(&src);
     let diags = match out {
         Front::Analyzed { diags } => diags,
@@ -579,7 +579,7 @@ pub fn check_valid(tape: &[u16], rc: &mut RCase) -> Result<(), Failure> {
     feat.witnesses = true;
     let case = Gen::new(&mut t, feat).generate();
     let src = print_plain(&case.prog);
-    let (out, ast) = front::eval(&src);
+    let (out, ast) = front::eval_opts(&src, true);
     let rendered = || json!({"mutation": "none", "source": src});
     if let Front::Analyzed { diags } = out {
         if diags.is_empty() {
